@@ -78,8 +78,13 @@ def main():
         ap.error("property id required")
     t0 = time.time()
     log_dir = os.path.join(VERIF, ".build", "logs", prop)
-    known = [k for k in load_known() if k["property"] == prop]
+    all_known = load_known()
+    known = [k for k in all_known if k["property"] == prop]
     known_keys = {k["key"]: k for k in known}
+    # a harness shared between properties carries assertions labelled with the property they belong to (cNN.…): a listed
+    # finding of that other property is the same finding here, reported under its own property id
+    foreign_known = {k["key"]: k for k in all_known if k["property"] != prop
+                     and re.match(r"^c(\d\d)\.", k["key"]) and "C" + k["key"][1:3] == k["property"]}
 
     sel = K.select(harnesses, prop, args.tier, args.only)
     mspecs = []
@@ -95,6 +100,7 @@ def main():
 
     violations = []     # (key, what, replay_path)
     known_hits = {}     # key -> what
+    foreign_hits = {}   # key -> known-finding record of another property (shared harness)
     inconclusive = []   # text
     units = []          # evidence records
 
@@ -104,6 +110,8 @@ def main():
               f"checks={r.get('n_checks')} covers={r.get('n_covers')} {extra}", flush=True)
 
     kres = K.run_all(sel, args.tier, args.jobs, log_dir, progress) if sel else []
+    need_playback = []
+    recs = {}
     for h, r in kres:
         rec = {
             "engine": "kani", "harness": h.qualified, "source": f"kani/src/{h.module}.rs:{h.line}",
@@ -111,29 +119,40 @@ def main():
             "cbmc_checks_decided": r.get("n_checks", 0), "covers": r.get("covers", []),
             "solver_s": r.get("cbmc_s"), "wall_s": round(r.get("wall_s", 0), 1),
         }
+        recs[h.name] = rec
         if r["status"] == "failed":
             new = []
             for f in r["failed"]:
                 key = finding_key(h.name, f)
                 if key in known_keys:
                     known_hits[key] = known_keys[key]["what"]
+                elif key in foreign_known and foreign_known[key]["property"] in h.props:
+                    foreign_hits[key] = foreign_known[key]
                 else:
                     new.append((key, f))
             rec["failed"] = [finding_key(h.name, f) for f in r["failed"]]
             if new:
-                replay_dir = os.path.join(VERIF, "replays", prop)
-                path, reproduced, note = K.playback(h, replay_dir, log_dir)
-                rec["replay"] = {"path": path, "reproduced": reproduced, "note": note}
+                need_playback.append((h, new))
+        elif r["status"] == "inconclusive":
+            inconclusive.append(f"{h.name}: {r.get('reason')}")
+            rec["reason"] = r.get("reason")
+        units.append(rec)
+    if need_playback:
+        # concrete playback (a second CBMC run per failing harness + a native test run): in parallel, own dirs
+        import concurrent.futures
+        replay_dir = os.path.join(VERIF, "replays", prop)
+        with concurrent.futures.ThreadPoolExecutor(max_workers=min(4, len(need_playback))) as pool:
+            futs = {pool.submit(K.playback, h, replay_dir, log_dir, i % 4): (h, new) for i, (h, new) in enumerate(need_playback)}
+            for fu in concurrent.futures.as_completed(futs):
+                h, new = futs[fu]
+                path, reproduced, note = fu.result()
+                recs[h.name]["replay"] = {"path": path, "reproduced": reproduced, "note": note}
                 print(f"[K] {h.name}: counterexample; {note}", flush=True)
                 if reproduced is False:
                     inconclusive.append(f"{h.name}: counterexample did not reproduce natively ({note})")
                 else:
                     for key, f in new:
                         violations.append((key, f["desc"], path))
-        elif r["status"] == "inconclusive":
-            inconclusive.append(f"{h.name}: {r.get('reason')}")
-            rec["reason"] = r.get("reason")
-        units.append(rec)
 
     mstats = {}
     if mspecs:
@@ -149,6 +168,8 @@ def main():
     # ---- report -------------------------------------------------------------------------
     for key, what in sorted(known_hits.items()):
         print(f"KNOWN-FINDING: property={prop} {key}: {what}")
+    for key, k in sorted(foreign_hits.items()):
+        print(f"KNOWN-FINDING: property={k['property']} {key}: {k['what']} (assertion of {k['property']} in a harness shared with {prop})")
     seen = set()
     for key, what, path in violations:
         if (key, path) in seen:
